@@ -13,7 +13,7 @@ From FlacBase Require Import Res Bits.
 From FlacMeta Require Import Bytes Bytes_proofs Blocks BlockList Blocks_proofs Blocks_level BlockList_proofs Utf8 Utf8_proofs.
 From FlacUpdIo Require GenUpd Update Update_proofs Update_cond.
 From FlacCodec Require Ast Stream Spec.
-From FlacE2EUpd Require Import RealCodec CodecView UpdateE2E.
+From FlacE2EUpd Require Import RealCodec CodecView UpdateE2E NoPanicE2E.
 Open Scope N_scope.
 
 Definition utf8_ok (u : list N -> bool) : Prop := forall s, Forall (fun b => b < 128) s -> u s = true.
@@ -99,6 +99,17 @@ Theorem C10_real_codec_same_decoding : forall (u : list N -> bool), utf8_ok u ->
   skipn (length fn - length audio) fn = audio.
 Proof. exact real_history_same_decoding. Qed.
 
+(* update_file over the real codec never panics of its own: ANY bytes, any start, any callback that does not panic;
+   and on typed lists the metadata writer itself does not panic (so the instance hides nothing) *)
+Theorem C10_real_codec_no_panic : forall (u : list N -> bool)
+  (edit : U.blocklist block -> res (U.blocklist block)) (start : nat) (file : list N),
+  (forall bl, is_panic (edit bl) = false) ->
+  is_panic (snd (U.update_file block psize_r ser_r uclass_r (read_blocks_r u) edit start file)) = false.
+Proof. exact real_update_no_panic. Qed.
+Theorem C10_real_codec_writer_no_panic : forall (u : list N -> bool) (bl : U.blocklist block),
+  Forall (ty_block u) (of_upd bl) -> is_panic (write_blocks (of_upd bl)) = false.
+Proof. exact real_writer_no_panic. Qed.
+
 (* ---- non-vacuity: a concrete file, two concrete edits, run through the model *)
 Definition ex_si : streaminfo := mkSI 4096 4096 0 0 44100 2 16 1000 None.
 Definition ex_audio : list N := [255; 248; 201; 24; 0; 1; 2; 3].
@@ -139,6 +150,8 @@ Proof.
   - eexists. vm_compute. reflexivity.
 Qed.
 
+Print Assumptions C10_real_codec_no_panic.
+Print Assumptions C10_real_codec_writer_no_panic.
 Print Assumptions C10_real_codec_hypotheses.
 Print Assumptions C10_readers_agree.
 Print Assumptions C10_real_codec_inplace.
